@@ -130,7 +130,17 @@ func c04R1(h H) {
 			case "(net/http.Header).Del":
 				if derives(c.Args[1], func(v ssa.Value) bool { return isGlobalNamed(v, "hopHeaders") }, flowOpts{}) {
 					tableDels = append(tableDels, in)
-				} else if derives(c.Args[1], func(v ssa.Value) bool { return isResultOf(v, 0, "strings.Split") }, flowOpts{throughCalls: true}) {
+				} else if derives(c.Args[1], func(v ssa.Value) bool {
+					// a token of the Connection header's value, however it was cut out (Split, Cut, Index and slicing)
+					if isResultOf(v, 0, "strings.Split") {
+						return true
+					}
+					if cc, ok := v.(*ssa.Call); ok && calleeName(&cc.Call) == "(net/http.Header).Get" {
+						k, isK := constString(cc.Call.Args[1])
+						return isK && k == "Connection"
+					}
+					return false
+				}, flowOpts{throughCalls: true}) {
 					tokenDels = append(tokenDels, in)
 				}
 			case "(net/http.Header).Get":
@@ -239,63 +249,9 @@ func mustPassIncl(fn *ssa.Function, target ssa.Instruction, via func(ssa.Instruc
 
 func c04R2(h H) {
 	r := h.r
-	r.Rule("R2", "copy-on-write of the outgoing request: in createUpstreamRequest every mutation of outreq.Header follows, on every path, a store of a fresh map into outreq.Header (a flag that is true only after such a store counts); in Proxy.ServeHTTP's retry loop every iteration stores a fresh URL copy and a fresh header map into outreq before any call that receives outreq or its header, and those stores never install a shared value", 6)
-	fn := h.fn("R2", pxPkg, "createUpstreamRequest")
-	if fn != nil {
-		isFreshStore := func(in ssa.Instruction) bool {
-			st, ok := in.(*ssa.Store)
-			if !ok {
-				return false
-			}
-			fa, ok := st.Addr.(*ssa.FieldAddr)
-			if !ok || fieldName(fa.X.Type(), fa.Field) != "Header" {
-				return false
-			}
-			_, isMake := st.Val.(*ssa.MakeMap)
-			return isMake
-		}
-		flags := flagTrueEdges(fn, isFreshStore)
-		n := 0
-		allInstrs(fn, func(in ssa.Instruction) {
-			hv, ok := headerMutation(in)
-			if !ok {
-				return
-			}
-			// a map created in this function (every way the value can arise is a make, or nil) is private by construction
-			if leaves, direct := phiLeaves(hv); len(leaves)+len(direct) > 0 {
-				fresh, anyMake := true, false
-				for _, lv := range append(direct, leafValues(leaves)...) {
-					switch t := lv.(type) {
-					case *ssa.MakeMap:
-						anyMake = true
-					case *ssa.Const:
-						if t.Value != nil {
-							fresh = false
-						}
-					default:
-						fresh = false
-					}
-				}
-				if fresh && anyMake {
-					n++
-					r.Hold("R2", sprintf("proxy.createUpstreamRequest/header-mutation:%s", mutationName(in)), in.Pos(),
-						"the modified header map was created in this function (private copy)", describe(hv))
-					return
-				}
-			}
-			// only mutations of the outgoing request's header (outreq = result of WithContext)
-			if !derives(hv, func(v ssa.Value) bool { return isResultOf(v, 0, "(*net/http.Request).WithContext") }, flowOpts{}) {
-				return
-			}
-			n++
-			ok2 := !canReach(fn, nil, in, cut{instr: func(x ssa.Instruction) bool { return x != in && isFreshStore(x) }, edges: flags})
-			r.Check(ok2, "R2", sprintf("proxy.createUpstreamRequest/header-mutation:%s", mutationName(in)), in.Pos(),
-				"the outgoing header map is a private copy before it is modified (the shallow request copy shares the client's map)", describe(hv))
-		})
-		if n < 3 {
-			r.Unresolve("R2", sprintf("createUpstreamRequest: only %d header mutations of the outgoing request recognised", n))
-		}
-	}
+	r.Rule("R2", "copy-on-write of the outgoing request (createUpstreamRequest: see R5): in Proxy.ServeHTTP's retry loop every iteration stores a fresh URL copy and a fresh header map into outreq before any call that receives outreq or its header, and those stores never install a shared value", 6)
+	// createUpstreamRequest: decided by the table of R5 (the client's header map is never modified), which models
+	// http.Request.WithContext as the shallow copy it is
 	sv := h.fn("R2", pxPkg, "Proxy.ServeHTTP")
 	if sv == nil {
 		return
@@ -576,25 +532,47 @@ func isNilMatchGuard(g guardInfo) bool {
 func c04R4(h H) {
 	r := h.r
 	r.Rule("R4", "response relay: ReverseProxy.ServeHTTP passes the backend's StatusCode unmodified to WriteHeader; every store of the \"Trailer\" announcement into the response header happens before WriteHeader; copyResponse precedes shallowCopyTrailers", 3)
-	fn := h.fn("R4", pxPkg, "(*ReverseProxy).ServeHTTP")
-	if fn == nil {
+	fn0 := h.fn("R4", pxPkg, "(*ReverseProxy).ServeHTTP")
+	if fn0 == nil {
 		return
 	}
+	// the relay may have been moved into a helper method: analyse the function that commits the header
+	fn := fn0
 	var wh []ssa.Instruction
-	allInstrs(fn, func(in ssa.Instruction) {
-		if c := callOf(in); c != nil && c.IsInvoke() && c.Method.Name() == "WriteHeader" && strings.HasSuffix(c.Value.Type().String(), "net/http.ResponseWriter") {
-			wh = append(wh, in)
+	for _, g := range withHelpers(fn0, 2) {
+		var found []ssa.Instruction
+		allInstrs(g, func(in ssa.Instruction) {
+			if c := callOf(in); c != nil && c.IsInvoke() && c.Method.Name() == "WriteHeader" && strings.HasSuffix(c.Value.Type().String(), "net/http.ResponseWriter") {
+				found = append(found, in)
+			}
+		})
+		if len(found) > 0 && len(wh) == 0 {
+			fn, wh = g, found
 		}
-	})
+	}
 	if len(wh) == 0 {
 		r.Unresolve("R4", "ReverseProxy.ServeHTTP: no ResponseWriter.WriteHeader invoke")
 		return
+	}
+	fromRoundTrip := func(v ssa.Value) bool {
+		return derives(v, func(x ssa.Value) bool {
+			if isResultOf(x, 0, "iface:(net/http.RoundTripper).RoundTrip") {
+				return true
+			}
+			// a parameter of the helper: what its single caller passes
+			if p, isP := x.(*ssa.Parameter); isP {
+				if a := callerArg(h.p, p); a != nil {
+					return derives(a, func(y ssa.Value) bool { return isResultOf(y, 0, "iface:(net/http.RoundTripper).RoundTrip") }, flowOpts{})
+				}
+			}
+			return false
+		}, flowOpts{})
 	}
 	for _, w := range wh {
 		arg := callOf(w).Args[0]
 		p, _ := fieldPath(arg)
 		_, isLoad := arg.(*ssa.UnOp)
-		okStatus := isLoad && p == "StatusCode" && derives(arg, func(v ssa.Value) bool { return isResultOf(v, 0, "iface:(net/http.RoundTripper).RoundTrip") }, flowOpts{})
+		okStatus := isLoad && p == "StatusCode" && fromRoundTrip(arg)
 		r.Check(okStatus, "R4", "proxy.(*ReverseProxy).ServeHTTP/status-passthrough", w.Pos(), "the status written to the client is the backend response's StatusCode field, unmodified", describe(arg))
 	}
 	n := 0
@@ -653,4 +631,27 @@ func c04R4(h H) {
 	if len(copyTr) == 0 {
 		r.Unresolve("R4", "ReverseProxy.ServeHTTP: shallowCopyTrailers call not found")
 	}
+}
+
+// callerArg: the argument bound to parameter p when its function has exactly one static call site in the module.
+func callerArg(p *Program, par *ssa.Parameter) ssa.Value {
+	fn := par.Parent()
+	if fn == nil {
+		return nil
+	}
+	idx := -1
+	for k, x := range fn.Params {
+		if x == par {
+			idx = k
+		}
+	}
+	sites := callSitesOf(p, fn)
+	if len(sites) != 1 || idx < 0 {
+		return nil
+	}
+	c := callOf(sites[0])
+	if idx >= len(c.Args) {
+		return nil
+	}
+	return c.Args[idx]
 }
